@@ -55,7 +55,8 @@ def gen_case(seed, tier, prop="C15"):
                     op[0] = "coro"
     return {"engine": "threads_portal", "prop": "C15", "mode": mode, "callers": callers,
             "main_yields": rng.randint(0, 8), "leave_early": leave_early, "exit_with_error": rng.random() < 0.15,
-            "inline_stop_after": rng.choice([0.125, 0.25, 0.5, 1.0]), "loop": loop, "sched_seed": rng.getrandbits(32)}
+            "inline_stop_after": rng.choice([0.125, 0.25, 0.5, 1.0]), "two_step_stop": rng.random() < 0.4,
+            "loop": loop, "sched_seed": rng.getrandbits(32)}
 
 
 class PortalRun:
@@ -415,6 +416,25 @@ class PortalRun:
             self.ths = self.start_callers(portal)
             with move_on_after(c["inline_stop_after"]):
                 await portal.sleep_until_stopped()
+            if c.get("two_step_stop"):
+                # graceful stop first (new calls refused, running tasks may finish), then a forced one
+                self.stop_begun = True
+                self.h.rec("stop_begin", "main", False)
+                await portal.stop()
+                self.stopped = True
+                await sleep(0.125)
+                self.cancel_stop_begun = True
+                self.h.rec("stop_begin", "main", True)
+                await portal.stop(cancel_remaining=True)
+                self.faults["portal_stop_cancel_remaining"] += 1
+                for _ in range(6):
+                    await sleep(0)
+                still = [cid for cid, st in self.calls.items() if st.get("running")]
+                if still:
+                    self.v("cancel_remaining_ignored", f"tasks of calls {still} are still running 6 loop cycles after "
+                                                       f"stop(cancel_remaining=True) (issued after an earlier graceful stop())")
+                else:
+                    self.bump("forced_stop_after_graceful_stop")
             self.context_left_begun = True
             self.stop_begun = True
             self.h.rec("leaving_context")
